@@ -1,6 +1,8 @@
 CONSTANTS
   MaxLen = 2
   MaxDim = 2
+  KindsB = {"binop", "where", "reduce", "einsum", "adv"}
+  Rich = TRUE
 INIT Init2
 NEXT Next
 INVARIANT LowerCorrect2
